@@ -455,3 +455,65 @@ func init() {
 	cmds["c01-toy"] = c01toy
 	cmds["c01-real"] = c01real
 }
+
+// c13-run <cases.ndjson> <obs.ndjson>: sm2.KeyExchangeA / KeyExchangeB for both parties
+func c13run(args []string) error {
+	in, err := os.Open(args[0])
+	if err != nil {
+		return err
+	}
+	defer in.Close()
+	outf, err := os.Create(args[1])
+	if err != nil {
+		return err
+	}
+	defer outf.Close()
+	w := bufio.NewWriter(outf)
+	defer w.Flush()
+	sc := bufio.NewScanner(in)
+	sc.Buffer(make([]byte, 1<<20), 1<<27)
+	for sc.Scan() {
+		var row struct {
+			Case map[string]interface{} `json:"case"`
+		}
+		if err := json.Unmarshal(sc.Bytes(), &row); err != nil {
+			return err
+		}
+		c := row.Case
+		got := map[string]interface{}{}
+		pan := recoverStr(func() {
+			da, db, ra, rb := privOf(c["da"].(string)), privOf(c["db"].(string)), privOf(c["ra"].(string)), privOf(c["rb"].(string))
+			ida, idb := idBytes(c["ida"].(map[string]interface{})), idBytes(c["idb"].(map[string]interface{}))
+			klen := int(c["klen"].(float64))
+			rpubA, rpubB := &ra.PublicKey, &rb.PublicKey
+			if bad, ok := c["bad"].(string); ok {
+				// the peer's ephemeral value as received by each side is not a curve point
+				mk := func(p *sm2.PublicKey) *sm2.PublicKey {
+					q := &sm2.PublicKey{Curve: p.Curve, X: new(big.Int).Set(p.X), Y: new(big.Int).Set(p.Y)}
+					switch bad {
+					case "offcurve":
+						q.Y.Add(q.Y, big.NewInt(1))
+					case "infinity":
+						q.X.SetInt64(0)
+						q.Y.SetInt64(0)
+					}
+					return q
+				}
+				rpubA, rpubB = mk(rpubA), mk(rpubB)
+			}
+			ka, s1a, s2a, ea := sm2.KeyExchangeA(klen, ida, idb, da, &db.PublicKey, ra, rpubB)
+			kb, s1b, s2b, eb := sm2.KeyExchangeB(klen, ida, idb, db, &da.PublicKey, rb, rpubA)
+			got["a"] = map[string]interface{}{"k": ints(ka), "s1": ints(s1a), "s2": ints(s2a), "err": ea != nil}
+			got["b"] = map[string]interface{}{"k": ints(kb), "s1": ints(s1b), "s2": ints(s2b), "err": eb != nil}
+		})
+		if pan != "" {
+			got["panic"] = pan
+		}
+		b, _ := json.Marshal(map[string]interface{}{"case": c, "got": got})
+		w.Write(b)
+		w.WriteByte('\n')
+	}
+	return sc.Err()
+}
+
+func init() { cmds["c13-run"] = c13run }
